@@ -611,6 +611,8 @@ def run(ctx, only_cases=None):
         sk = gen_pegskel.extract(tree)
         with open(CANON) as f:
             known = json.load(f)
+        # cases whose C-function callback runs between janet_gclock / janet_gcunlock (recognised as ONE pair, dropped)
+        tie_info["gc_locked_callback"] = sk.get("gc_locked", [])
         for r, why in sorted(sk["problems"].items()):
             broken.append("tie: peg_rule case %s is no longer in the statement language of Peg/Skel.lean (%s)" % (r, why))
         for r, c in sorted(sk["canons"].items()):
